@@ -861,6 +861,12 @@ fn run_cli_family(run: &mut Run) {
             }
         };
         run.add("child_processes", 1);
+        if child.timed_out {
+            // an overloaded machine must not be able to produce an alarm: not judged
+            run.probe("child_timeout_not_judged");
+            let _ = std::fs::remove_dir_all(&root);
+            return;
+        }
         let outfile = sc
             .cmd
             .output()
